@@ -80,3 +80,17 @@ Theorem C18_allocations_logarithmic_in_peak_unfolded :
             /\ (2 <= k -> pGrowth P ^ (k - 2) <= run_peak P init_state ops).
 Proof. exact allocations_logarithmic_unfolded. Qed.
 Print Assumptions C18_allocations_logarithmic_in_peak_unfolded.
+
+(** FuturesOrdered (peak = futures in progress + parked outputs): the groups of the inner
+    collection (k creations) and the growths of the heap of parked outputs (j, each at least
+    doubling a full heap) are both logarithmic in the peak:
+    A <= 3 * k + j + 4 with growth^(k-2) <= peak and 2^j <= peak *)
+From FB Require Import Ordered.
+Theorem C18_allocations_logarithmic_in_peak_ordered :
+  forall (P : params), params_ok P -> forall (ops : list op) (q : fo),
+  st_coll (reach P ops) = CFo q ->
+  exists k j, list_sum (run_allocs P init_state ops) <= (3 * k + 3) + (j + 1)
+              /\ (2 <= k -> pGrowth P ^ (k - 2) <= run_peak P init_state ops)
+              /\ (2 <= j -> 2 ^ j <= run_peak P init_state ops).
+Proof. exact allocations_logarithmic_ordered. Qed.
+Print Assumptions C18_allocations_logarithmic_in_peak_ordered.
